@@ -214,7 +214,8 @@ PROPERTIES = {
     "C20": {"rules": ["M-DETRT", "T-DET", "M-UNSAFE", "M-FREEZE"], "level": "other"},
     "C15": {"rules": ["T-ALLOC", "T-ENUM", "T-DELTA"], "level": "other"},
     "C07": {"rules": ["T-LOOP", "T-PENDING"], "level": "other"},
-    "C17": {"rules": ["T-MOR", "T-AGE", "T-LOOP", "S-PRUNE", "S-SIB"], "level": "translation_validation"},
+    # of the close_until typestate only the clauses about running rules / evaluating the condition on stale `all` copies
+    "C17": {"only_keys": {"T-LOOP": ["T-LOOP:close_until:rules-on-stale-tables", "T-LOOP:close_until:condition-on-stale-tables", "T-LOOP:close_until:env-"]}, "rules": ["T-MOR", "T-AGE", "T-LOOP", "S-PRUNE", "S-SIB"], "level": "translation_validation"},
     "C16": {"rules": ["T-SEMI", "T-PLAN", "T-FLAT"], "level": "translation_validation"},
 }
 
